@@ -27,6 +27,7 @@ HARNESSES = [
     _h('paramvalue', (7, 14), 'PARAMVALUE of every type, arrays <=2 with NULL mask, references'),
     _h('method', (1, 1), 'return type selector, 0..2 parameters, 0..2 qualifiers, class_origin, propagated'),
     _h('instance', (7, 14), '0..2 properties of every type, NULL property, optional path with host/namespace, qualifier'),
+    _h('embedded', (8, 8), 'embedded instance/class as property or PARAMVALUE, scalar/array 0..3 with NULL mask, nesting depth 0..1 (quick) / 0..3 (thorough); inner objects concrete (re-parsed by expat)'),
     _h('klass', (7, 14), '0..2 properties, 0..1 methods, superclass optional, qualifiers 0..2'),
 ]
 CLAIM = dict(
